@@ -66,6 +66,9 @@ func loadSTLAscii(file *os.File) ([]*sdf.Triangle3, error) {
 		}
 	}
 	// make triangles out of every 3 vertices
+	if len(v)%3 != 0 {
+		return nil, fmt.Errorf("bad ascii stl: %d vertices is not a multiple of 3", len(v))
+	}
 	var mesh []*sdf.Triangle3
 	for i := 0; i < len(v); i += 3 {
 		mesh = append(mesh, &sdf.Triangle3{v[i+0], v[i+1], v[i+2]})
